@@ -15,6 +15,8 @@ R3 value fidelity: every key holds the value passed for the parameter of the
    get_config have their inverse in from_config.
 R4 the constructor's rewrites are idempotent (config of the rebuilt object
    equals the first config).
+R9 an array-valued option (a frozen post_training_scale) keeps its shape
+   and entries through get_config / from_config.
 R5 registry: the 14 decorated classes are registered under their own name,
    lookup indexes the same container, quantizer_imports re-exports exactly
    those names, all are module-level names of quantizers.py and have
@@ -603,6 +605,61 @@ def rule_live_options(rep, repo, mod, classes, rule="R8", only=None):
   return n
 
 
+def rule_array_layout(rep, repo, mod, rule="R9"):
+  """An array-valued option keeps its LAYOUT through the configuration:
+  the shape of a frozen post_training_scale is the only record of the axis
+  its entries belong to (get_config does not store scale_axis), so the value
+  rebuilt by from_config(get_config()) has to have the same shape and the
+  same entries as the one the quantizer holds - for scales laid out along
+  the first axis, a middle axis, the last axis, and for a plain vector."""
+  from ..pe import NDArr, nd_equal
+  n = 0
+  for cls, ci in sorted(mod.classes.items()):
+    params = [p for p, _ in ci.init_params()[0]]
+    if "post_training_scale" not in params or cls not in ALTS:
+      continue
+    gc_owner, gc = ci.find_method("get_config")
+    unit = "%s::%s.get_config" % (mod.relpath, cls)
+    loc = gc_owner.module.loc(gc)
+    vals = [F(1, 2), F(1), F(2), F(4), F(8), F(16)]
+    for label, arr in (
+        ("shape (4, 1)", NDArr([[v] for v in vals[:4]])),
+        ("shape (1, 6)", NDArr([list(vals)])),
+        ("shape (1, 1, 5, 1)", NDArr.from_flat(vals[:5], (1, 1, 5, 1))),
+        ("shape (3, 1, 1)", NDArr.from_flat(vals[:3], (3, 1, 1))),
+        ("vector of 6", NArr(vals))):
+      cfg = "%s(alpha='auto_po2', post_training_scale of %s)" % (cls, label)
+      pe = PE(repo)
+      cref = pe.lookup_global(cls, mod)
+      try:
+        q = pe.call(cref, [], dict(alpha="auto_po2",
+                                   post_training_scale=arr))
+        config = pe.call(pe.getattr(q, "get_config"), [], {})
+        q2 = pe.call(pe.getattr(cref, "from_config"), [dict(config)], {})
+      except PyRaise as e:
+        rep.fail(rule, unit, "array-option-round-trip-raises",
+                 "%s: %s" % (cfg, e), loc=loc, instance=cfg)
+        continue
+      a1 = q.attrs.get("post_training_scale")
+      a2 = q2.attrs.get("post_training_scale") if isinstance(q2, Obj) \
+          else None
+      n += 1
+
+      def text(a):
+        if isinstance(a, NDArr):
+          return "shape %s entries %s" % (tuple(a.shape),
+                                          [str(e) for e in a.flat()])
+        if isinstance(a, list):
+          return "shape (%d,) entries %s" % (len(a), [str(e) for e in a])
+        return repr(a)
+      ok = isinstance(a1, (NDArr, list)) and isinstance(a2, (NDArr, list)) \
+          and nd_equal(a1, a2)
+      rep.check(ok, rule, unit, "array-option-layout-lost",
+                "%s: the rebuilt quantizer holds %s, the original %s" %
+                (cfg, text(a2), text(a1)), loc=loc, instance=cfg)
+  return n
+
+
 def rule_registry(rep, repo, mod):
   reg = repo.module("qkeras.quantizer_registry")
   base = repo.module("qkeras.registry")
@@ -785,6 +842,8 @@ def run(rep, repo, tier):
   rep.extra["live_option_assignments_checked"] = rule_live_options(
       rep, repo, mod, qref.ALL_QUANTIZERS)
   rep.require_instances("R8", 150)
+  rule_array_layout(rep, repo, mod)
+  rep.require_instances("R9", 5)
   if tier == "thorough":
     for cls, kw in qref.lattice_all("quick", with_f=False):
       roundtrip(rep, repo, mod, cls, dict(kw), None)
